@@ -7,7 +7,10 @@
                     relative of num/den and den <= 10^4, so the rational is unique)
      kpts           the k-points handed to the code, as integer mesh coordinates  (only with neighbours)
      kptirr         the k-point indices for which neighbours were computed (0-based)
-     nb, gv         neighbours[ik][ib] (0-based index into kpts) and G[ik][ib] for ik in kptirr, in the order of kptirr *)
+     nb, gv         neighbours[ik][ib] (0-based index into kpts) and G[ik][ib] for ik in kptirr, in the order of kptirr
+     SSW            (optional) a wider search box: the shells of the stencil must be whole level sets in that box too
+   kpts are the integers the harness intended (any integers: the reduced coordinates handed to the code may lie outside
+   [0, 1) and carry noise of 1e-9); fn names the call that produced the record (from_kpoints, reorder_mmn). *)
 EXTENDS BShells, Json, IOUtils, TLCExt
 VARIABLE i
 Recs == JsonDeserialize(IOEnv.TRACE_FILE).recs
@@ -35,7 +38,11 @@ NbClauses ==
                         /\ Rec.nb[j][b] \in 0..(NK - 1)
                         /\ NeighbourRel(LRec, V3(Rec.kpts[Rec.kptirr[j] + 1]), V3(Rec.bk[b]),
                                         V3(Rec.kpts[Rec.nb[j][b] + 1]), V3(Rec.gv[j][b])) ]
-Clauses == IF HasNb THEN StencilClauses @@ NbClauses ELSE StencilClauses
+HasWide == "SSW" \in DOMAIN Rec
+WideClauses ==
+   [ whole_shells_wide |-> WholeShells(MkLattice(M33(Rec.G), Rec.gs, <<>>, V3(Rec.N), Rec.SSW), SRec) ]
+Clauses0 == IF HasNb THEN StencilClauses @@ NbClauses ELSE StencilClauses
+Clauses == IF HasWide THEN Clauses0 @@ WideClauses ELSE Clauses0
 Report == LET cl == Clauses IN \A n \in DOMAIN cl : cl[n] \/ PrintT(<<"BAD", i, n>>)
 RecInit == i \in 1..Len(Recs)
 RecSpec == RecInit /\ [][UNCHANGED i]_i
